@@ -38,7 +38,7 @@ LEVEL = 'exploration'
 RULE = ('exhaustive: all sequences of length <= DEPTH (quick 4, thorough 5) over the per-role alphabet (32/33 symbols: local send_headers in each '
         'message role with/without END_STREAM, send_data, end_stream, reset_stream, push_stream, increment_flow_control_window, stream-bound advertise_alternative_service, cleanup; '
         'received HEADERS in each message role with/without END_STREAM, DATA, RST_STREAM, WINDOW_UPDATE, PUSH_PROMISE, ALTSVC, naked CONTINUATION; '
-        'and a reduced set on the promised stream) x role x start (plain / upgraded); a connection error or a refused local action ends a branch; '
+        'and a reduced set on the promised stream) x role x start (plain / upgraded); a connection error ends a branch; after a refused local action (at most one per sequence, among the first 2 / 3 symbols) the sequence goes on with the model unchanged; '
         'plus random walks of length <= 14; every node = one reaction compared with the allowed set of the reference machine; '
         'non-trivial = node where the allowed set excluded at least one reaction class the library could have produced (always true) and '
         'the stream was not idle; distinct = the symbol sequence')
@@ -54,6 +54,7 @@ INFO = [(b':status', b'100')]
 TRAILERS = [(b'x-trailer', b't')]
 
 S, P, P2 = 1, 2, 4
+MAX_REFUSALS = 1
 
 # symbol = (name, kind 'L'|'R'|'X', stream)
 CLIENT_ALPHABET = [
@@ -113,7 +114,8 @@ def new_model(client, start):
 
 
 def clone_model(m):
-    return {'client': m['client'], 'st': {k: dict(v) for k, v in m['st'].items()}, 'hi_in': m['hi_in'], 'hi_out': m['hi_out']}
+    return {'client': m['client'], 'st': {k: dict(v) for k, v in m['st'].items()}, 'hi_in': m['hi_in'], 'hi_out': m['hi_out'],
+            'refusals': m.get('refusals', 0)}
 
 
 def e_end(s):
@@ -484,10 +486,12 @@ def start_conn(client, start):
 
 
 class Judge(object):
-    def __init__(self, rep, client, start):
+    def __init__(self, rep, client, start, refusal_prefix=99):
         self.rep = rep
         self.client = client
         self.start = start
+        # a sequence goes on after a refused local action only when the refusal is among its first refusal_prefix symbols
+        self.refusal_prefix = refusal_prefix
 
     def fail(self, key, what, path, extra=None):
         w = {'role': 'client' if self.client else 'server', 'start': self.start, 'sequence': ['%s@%d' % (n, s) for n, _, s in path],
@@ -543,9 +547,11 @@ class Judge(object):
                     self.fail('C06:forbidden-local-action-accepted:%s:in-%s' % (name, state),
                               '%s on stream %d in model state %r succeeded, emitted %s' % (name, sid, m['st'][sid], [f.brief() for f in frames]), path)
                     return False
-                # one probe: is the stream still usable for what the RFC state permits?
+                # nothing was sent, so the RFC state is unchanged: the model stays where it is and the branch goes on (at most
+                # MAX_REFUSALS refused actions per sequence, to bound the tree); one probe checks usability right away
                 self.probe_after_refusal(conn, m, sid, path)
-                return False
+                m['refusals'] = m.get('refusals', 0) + 1
+                return m['refusals'] <= MAX_REFUSALS and len(path) <= self.refusal_prefix
             rep.count('local_either_not_judged')
             rep.observe('undetermined_cells', cell + (':ok' if exc is None else ':refused'))
             if exc is None and fn is not None:
@@ -676,7 +682,7 @@ def run_case(idx, rng, tier, rep):
         start = STARTS[k // (len(alphabet) ** 2)]
         k %= len(alphabet) ** 2
         a1, a2 = alphabet[k // len(alphabet)], alphabet[k % len(alphabet)]
-        j = Judge(rep, client, start)
+        j = Judge(rep, client, start, refusal_prefix=2 if tier == 'quick' else 3)
         conn = start_conn(client, start)
         m = new_model(client, start)
         path = []
